@@ -764,7 +764,7 @@ Section Theorems.
     - f_equal. apply map_id_in. intros x I. apply IH. apply size_in_list in I. lia.
     - f_equal. apply map_id_in. intros [k0 v] I. apply size_in_dict in I. simpl.
       rewrite !IH by lia. reflexivity.
-    - destruct (c_frozen (ct c) || c_dnc (ct c)); auto. f_equal.
+    - destruct (c_dnc (ct c)); auto. f_equal.
       apply flat_map_single_in. intros [x v] I. simpl.
       destruct (is_self_meth v); auto. destruct (attr_dnc ct c x); auto.
       apply (size_in_inst c) in I. rewrite IH by lia. reflexivity.
